@@ -7,6 +7,8 @@ Driver for the rolling appender; the case format is shared by C05, C06 and C17.
 
   seq  <mode a|t> <preActive: - | size> <preArchives: `,`-joined idx:size> <trigger> <roller> <clock0> <ops>
   conc <mode> <preActive> <preArchives> <trigger> <roller> <clock0> <amplifier> <threads `|`-joined record lists>
+  seqx <mode a|t> <pre: - | hex bytes> <ops> [pre|post]   C04's `seq` language (`Driver/C04.lean`) on rolling appenders whose
+                                                          trigger always answers false (consulted before / after the write): `handleSeqx`
 
   trigger = size:N | startup:M | time:<s|m>:<n>:<modulate 0|1> | spre:<answers> | spost:<answers>
             (answers: a word over y n e, `-` = empty script; exhausted script answers n)
@@ -680,8 +682,28 @@ def handlePar (cas obs : List String) : Answer :=
     | _, _, _, _, _ => badCase "par case"
   | _, _ => badCase "arity"
 
+/-- `seqx <mode> <pre> <ops> [pre|post]`: C04's multi-handle histories on real rolling appenders whose
+policy never rotates (`harness/src/c05.rs::exec_seqx`). While nothing rotates the rolling appender is the
+file appender (same `BufWriter` capacity — `C05_gen_bufwriter_capacity_rolling_file_appender` —, record
+encoded into memory first, `O_APPEND` at the first open since 3018b7b), so model and spec are C04's,
+unchanged: model observation = `Handles.trace` (= `traceV true`, the repaired variant), verdict =
+`Spec.expectedTraceM` on the implementation's observation; theorem `C04_multi_trace_eq_spec`
+(re-exported as `C05_no_rotation_is_file_appender_spec`). Signature of the input class of the defect
+3018b7b repaired: `C05/seqx-truncate-private-offset`. -/
+def handleSeqx (cas : List String) (obs : List String) : Answer :=
+  let go (m pre ops when : String) : Answer :=
+    let a := Driver.C04.handleSeq m pre ops obs "C05/seqx-"
+    if a.spec = "bad-case" then a else
+    { a with tags := ["seqx", "no-rotation", "trigger-" ++ when] ++ a.tags.filter (· != "seq") }
+  match cas with
+  | [_, m, pre, ops] => go m pre ops "post"
+  | [_, m, pre, ops, "post"] => go m pre ops "post"
+  | [_, m, pre, ops, "pre"] => go m pre ops "pre"
+  | _ => badCase "seqx"
+
 def handle : Handler := fun cas obs =>
   match cas with
+  | "seqx" :: _ => handleSeqx cas obs
   | "seq" :: _ => handleSeq cas obs
   | "par" :: _ => handlePar cas obs
   | "conc" :: _ => handleConc cas obs
